@@ -8,6 +8,7 @@ factor-signature: the set of calls (canonical keys with single-definition locals
 named by their type) in the data slice of the factor, i.e. *where the factor comes from*.
 """
 from .algebra import LocalDefs, data_slice
+from .canon import type_roles
 from .tree import key, root_of_lvalue, written_lvalues
 
 OPCLASS = {"*=": "mul", "/=": "div", "+=": "add", "-=": "sub", "=": "assign"}
@@ -45,7 +46,8 @@ def aliases(fn, target_root, defs):
     return out
 
 
-def signature(fn, expr_nodes, defs, sub):
+def signature(fn, expr_nodes, defs, sub, roles=None):
+    roles = roles if roles is not None else type_roles(fn, defs)
     sig = set()
     for m in data_slice(fn, expr_nodes, defs):
         if not m.is_call() or not m.callee:
@@ -53,7 +55,7 @@ def signature(fn, expr_nodes, defs, sub):
         short = m.callee.split("::")[-1]
         if short in PLUMBING or m.callee.startswith("std::"):
             continue
-        sig.add(key(m, "type", sub))
+        sig.add(key(m, roles, sub))
     return sig
 
 
@@ -61,6 +63,7 @@ def effects_on(fn, target_root, defs=None):
     defs = defs or LocalDefs(fn)
     sub = inline_map(fn, defs)
     al = aliases(fn, target_root, defs)
+    roles = type_roles(fn, defs)
     out = []
     for n in fn.walk():
         rec = None
@@ -91,7 +94,7 @@ def effects_on(fn, target_root, defs=None):
             if passed and obj is not None and root_of_lvalue(obj) not in al:
                 rec = ("call:" + n.callee.split("::")[-1], [obj] + [a for a in n.call_args() if a not in passed])
         if rec is not None:
-            out.append({"op": rec[0], "sig": signature(fn, rec[1], defs, sub), "node": n, "recv": key(rec[1][0], "type", sub) if rec[0].startswith("call:") else None})
+            out.append({"op": rec[0], "sig": signature(fn, rec[1], defs, sub, roles), "node": n, "recv": key(rec[1][0], roles, sub) if rec[0].startswith("call:") else None})
     return out
 
 
